@@ -10,7 +10,7 @@ def spake_xrecover (y : ℤ) : ℤ :=
   let xx := (((y * y) - (1 : ℤ)) * (spake_inv (((spake_d * y) * y) + (1 : ℤ))))
   let x := ((xx ^ ((((Q : ℤ) + (3 : ℤ)) / (8 : ℤ))).toNat) % (Q : ℤ))
   let x := (if ((((x * x) - xx) % (Q : ℤ)) ≠ (0 : ℤ)) then ((x * spake_I) % (Q : ℤ)) else x)
-  let x := (if ((x % (2 : ℤ)) ≠ (0 : ℤ)) then ((Q : ℤ) - x) else x)
+  let x := (if ((x % (2 : ℤ)) = (0 : ℤ)) then x else ((Q : ℤ) - x))
   x
 
 def spake_double_element (X1 Y1 Z1 _u_3 : ℤ) : ℤ × ℤ × ℤ × ℤ :=
